@@ -129,6 +129,16 @@ Definition observe (tb : ftable) (t : node) (o : dict) : string :=
   show_res show_keys (keys (r_body tb) (r_cbf tb) (r_eff tb) fuel t o) ++ "|" ++
   show_res (fun _ => "") (valid (r_body tb) (r_cbf tb) (r_eff tb) fuel t o).
 
+(** long outputs are compared through a rolling hash (tail recursive; the harness computes the
+    same number on its own rendering) *)
+Definition digest_mod : N := 2305843009213693951.   (* 2^61 - 1 *)
+Fixpoint digest_from (s : string) (h : N) : N :=
+  match s with
+  | EmptyString => h
+  | String c s' => digest_from s' ((h * 1000003 + Ascii.N_of_ascii c) mod digest_mod)%N
+  end.
+Definition digest (s : string) : string := showN (digest_from s 7).
+
 (** the state after a round trip in process [P], and whether pickle accepts the graph *)
 Definition show_roundtrip (P : proc) (t : node) : string := show_node (roundtrip P t).
 Definition show_picklable (imp : list N) (t : node) : string := showB (picklable imp t).
